@@ -498,7 +498,8 @@ fn gen_name(ch: &mut Choices<'_>) -> (String, usize) {
             (0..n).map(|_| ident_segment(ch, 9)).collect::<Vec<_>>().join(".")
         }
         3 => {
-            let n = 1 + ch.draw(6);
+            // short, or (one in four) long enough for multi-byte characters to straddle byte 32 / 64 / 128
+            let n = if ch.chance(1, 4) { *ch.pick(&[20usize, 31, 33, 40, 63, 65, 90, 130]) } else { 1 + ch.draw(6) };
             let mut s = String::new();
             for _ in 0..n {
                 if ch.draw(3) == 0 {
